@@ -892,7 +892,9 @@ func (e *cenv) convert(v val, t types.Type) val {
 	}
 	if isFloatSort(srt) && v.sort == "Int" {
 		if ii, ok := intInfoOf(v.typ); ok && v.typ != types.Typ[types.UntypedInt] {
-			return val{intToFloatTerm(ii, v.t, 11, 53), t, srt}
+			r := val{intToFloatTerm(ii, v.t, 11, 53), t, srt}
+			g.intFloatFacts(r.t)
+			return r
 		}
 		return val{fmt.Sprintf("((_ to_fp 11 53) RNE (to_real %s))", v.t), t, srt}
 	}
@@ -1106,6 +1108,12 @@ func (e *cenv) call(x *cCall) val {
 	case "bits":
 		a := e.tr(x.args[0])
 		return val{fmt.Sprintf("(fpbits %s)", a.t), types.Typ[types.Uint64], "(_ BitVec 64)"}
+	case "signbit":
+		a := e.tr(x.args[0])
+		if !isFloatSort(a.sort) {
+			e.fail("signbit needs a float")
+		}
+		return val{fmt.Sprintf("(fp.isNegative %s)", a.t), tBool, "Bool"}
 	case "isNaN":
 		a := e.tr(x.args[0])
 		if !isFloatSort(a.sort) {
